@@ -6,10 +6,10 @@
 //!   file with the real code.
 use aldrin_core::tags;
 use aldrin_core::{
-    Deserialize, DeserializeError, Deserializer, ProtocolVersion, SerializeError,
-    SerializedValue, ValueConversionError,
+    Deserialize, DeserializeError, Deserializer, ProtocolVersion, Serialize, SerializeError,
+    SerializedValue, Serializer, Value, ValueConversionError,
 };
-use std::cell::Cell;
+use std::cell::{Cell, RefCell};
 use std::collections::BTreeMap;
 use std::fmt::Write as _;
 use std::io::{BufRead, Write};
@@ -144,6 +144,7 @@ fn run_op(op: &str, args: &[&str]) -> String {
                     ),
                 }
             }
+            "v1only" => (if v1_scan(&bytes) { "1" } else { "0" }).to_string(),
             _ => format!("!UnknownOp {}", op),
         }
     });
@@ -450,6 +451,431 @@ fn cmd_mut(outdir: &str, n: u64) {
     std::fs::write(format!("{outdir}/stats.json"), stats).unwrap();
 }
 
+// ---------------------------------------------------------------- C13: epoch conversion
+
+/// Serializes a `Value` choosing per container node, from the Rng, between the counted
+/// (epoch 1) and the terminated (epoch 2) API; Bytes2 payloads are split into random chunks.
+struct Mixed<'a>(&'a Value, &'a RefCell<Rng>);
+
+macro_rules! mixed_map {
+    ($ser:expr, $tag:ty, $m:expr, $rng:expr) => {{
+        if $rng.borrow_mut().chance(1, 2) {
+            let mut s = $ser.serialize_map1::<$tag>($m.len())?;
+            for (k, v) in $m.iter() {
+                s.serialize::<tags::Value>(k, Mixed(v, $rng))?;
+            }
+            s.finish()
+        } else {
+            let mut s = $ser.serialize_map2::<$tag>()?;
+            for (k, v) in $m.iter() {
+                s.serialize::<tags::Value>(k, Mixed(v, $rng))?;
+            }
+            s.finish()
+        }
+    }};
+}
+
+macro_rules! mixed_set {
+    ($ser:expr, $tag:ty, $m:expr, $rng:expr) => {{
+        if $rng.borrow_mut().chance(1, 2) {
+            let mut s = $ser.serialize_set1::<$tag>($m.len())?;
+            for k in $m.iter() {
+                s.serialize(k)?;
+            }
+            s.finish()
+        } else {
+            let mut s = $ser.serialize_set2::<$tag>()?;
+            for k in $m.iter() {
+                s.serialize(k)?;
+            }
+            s.finish()
+        }
+    }};
+}
+
+impl Serialize<tags::Value> for Mixed<'_> {
+    fn serialize(self, serializer: Serializer) -> Result<(), SerializeError> {
+        let rng = self.1;
+        match self.0 {
+            Value::Some(x) => serializer.serialize_some::<tags::Value>(Mixed(x, rng)),
+            Value::Vec(l) => {
+                if rng.borrow_mut().chance(1, 2) {
+                    let mut s = serializer.serialize_vec1(l.len())?;
+                    for x in l {
+                        s.serialize::<tags::Value>(Mixed(x, rng))?;
+                    }
+                    s.finish()
+                } else {
+                    let mut s = serializer.serialize_vec2()?;
+                    for x in l {
+                        s.serialize::<tags::Value>(Mixed(x, rng))?;
+                    }
+                    s.finish()
+                }
+            }
+            Value::Bytes(b) => {
+                if rng.borrow_mut().chance(1, 2) {
+                    serializer.serialize_byte_slice1(&b.0)
+                } else {
+                    let mut s = serializer.serialize_bytes2()?;
+                    let mut rest: &[u8] = &b.0;
+                    while !rest.is_empty() {
+                        let k = if rng.borrow_mut().chance(1, 2) {
+                            rest.len()
+                        } else {
+                            rng.borrow_mut().range(1, rest.len() as u64) as usize
+                        };
+                        s.serialize(&rest[..k])?;
+                        rest = &rest[k..];
+                    }
+                    s.finish()
+                }
+            }
+            Value::U8Map(m) => mixed_map!(serializer, tags::U8, m, rng),
+            Value::I8Map(m) => mixed_map!(serializer, tags::I8, m, rng),
+            Value::U16Map(m) => mixed_map!(serializer, tags::U16, m, rng),
+            Value::I16Map(m) => mixed_map!(serializer, tags::I16, m, rng),
+            Value::U32Map(m) => mixed_map!(serializer, tags::U32, m, rng),
+            Value::I32Map(m) => mixed_map!(serializer, tags::I32, m, rng),
+            Value::U64Map(m) => mixed_map!(serializer, tags::U64, m, rng),
+            Value::I64Map(m) => mixed_map!(serializer, tags::I64, m, rng),
+            Value::StringMap(m) => mixed_map!(serializer, tags::String, m, rng),
+            Value::UuidMap(m) => mixed_map!(serializer, tags::Uuid, m, rng),
+            Value::U8Set(m) => mixed_set!(serializer, tags::U8, m, rng),
+            Value::I8Set(m) => mixed_set!(serializer, tags::I8, m, rng),
+            Value::U16Set(m) => mixed_set!(serializer, tags::U16, m, rng),
+            Value::I16Set(m) => mixed_set!(serializer, tags::I16, m, rng),
+            Value::U32Set(m) => mixed_set!(serializer, tags::U32, m, rng),
+            Value::I32Set(m) => mixed_set!(serializer, tags::I32, m, rng),
+            Value::U64Set(m) => mixed_set!(serializer, tags::U64, m, rng),
+            Value::I64Set(m) => mixed_set!(serializer, tags::I64, m, rng),
+            Value::StringSet(m) => mixed_set!(serializer, tags::String, m, rng),
+            Value::UuidSet(m) => mixed_set!(serializer, tags::Uuid, m, rng),
+            Value::Struct(st) => {
+                if rng.borrow_mut().chance(1, 2) {
+                    let mut s = serializer.serialize_struct1(st.0.len())?;
+                    for (id, x) in st.0.iter() {
+                        s.serialize::<tags::Value>(*id, Mixed(x, rng))?;
+                    }
+                    s.finish()
+                } else {
+                    let mut s = serializer.serialize_struct2()?;
+                    for (id, x) in st.0.iter() {
+                        s.serialize::<tags::Value>(*id, Mixed(x, rng))?;
+                    }
+                    s.finish()
+                }
+            }
+            Value::Enum(e) => serializer.serialize_enum::<tags::Value>(e.id, Mixed(&e.value, rng)),
+            other => serializer.serialize(other),
+        }
+    }
+}
+
+/// Monitor-side specification of "contains none of the container encodings introduced in 1.20":
+/// an independent little parser of the pre-1.20 wire grammar (kinds 0..=42 only); true iff the
+/// whole byte string is exactly one such value.  It never looks at the converter.
+fn v1_scan(b: &[u8]) -> bool {
+    fn varint(b: &[u8], pos: &mut usize, w: usize) -> Option<u64> {
+        let first = *b.get(*pos)? as usize;
+        *pos += 1;
+        if first > 255 - w {
+            let n = first - (255 - w);
+            let s = b.get(*pos..*pos + n)?;
+            *pos += n;
+            let mut v = 0u64;
+            for (i, x) in s.iter().enumerate() {
+                v |= (*x as u64) << (8 * i);
+            }
+            Some(v)
+        } else {
+            Some(first as u64)
+        }
+    }
+    fn fixed(b: &[u8], pos: &mut usize, n: usize) -> Option<()> {
+        b.get(*pos..pos.checked_add(n)?)?;
+        *pos += n;
+        Some(())
+    }
+    fn key(b: &[u8], pos: &mut usize, idx: u8) -> Option<()> {
+        match idx {
+            0 | 1 => fixed(b, pos, 1),
+            2 | 3 => varint(b, pos, 2).map(|_| ()),
+            4 | 5 => varint(b, pos, 4).map(|_| ()),
+            6 | 7 => varint(b, pos, 8).map(|_| ()),
+            8 => {
+                let n = varint(b, pos, 4)? as usize;
+                fixed(b, pos, n)
+            }
+            _ => fixed(b, pos, 16),
+        }
+    }
+    fn value(b: &[u8], pos: &mut usize, depth: u32) -> Option<()> {
+        if depth > 32 {
+            return None;
+        }
+        let k = *b.get(*pos)?;
+        *pos += 1;
+        match k {
+            0 => Some(()),
+            1 => value(b, pos, depth + 1),
+            2 | 3 | 4 => fixed(b, pos, 1),
+            5 | 6 => varint(b, pos, 2).map(|_| ()),
+            7 | 8 => varint(b, pos, 4).map(|_| ()),
+            9 | 10 => varint(b, pos, 8).map(|_| ()),
+            11 => fixed(b, pos, 4),
+            12 => fixed(b, pos, 8),
+            13 | 18 => {
+                let n = varint(b, pos, 4)? as usize;
+                fixed(b, pos, n)
+            }
+            14 | 41 | 42 => fixed(b, pos, 16),
+            15 => fixed(b, pos, 32),
+            16 => fixed(b, pos, 64),
+            17 => {
+                let n = varint(b, pos, 4)?;
+                for _ in 0..n {
+                    value(b, pos, depth + 1)?;
+                }
+                Some(())
+            }
+            19..=28 => {
+                let n = varint(b, pos, 4)?;
+                for _ in 0..n {
+                    key(b, pos, k - 19)?;
+                    value(b, pos, depth + 1)?;
+                }
+                Some(())
+            }
+            29..=38 => {
+                let n = varint(b, pos, 4)?;
+                for _ in 0..n {
+                    key(b, pos, k - 29)?;
+                }
+                Some(())
+            }
+            39 => {
+                let n = varint(b, pos, 4)?;
+                for _ in 0..n {
+                    varint(b, pos, 4)?;
+                    value(b, pos, depth + 1)?;
+                }
+                Some(())
+            }
+            40 => {
+                varint(b, pos, 4)?;
+                value(b, pos, depth + 1)
+            }
+            _ => None, // 43..=65: the 1.20 container encodings; > 65: no kind at all
+        }
+    }
+    let mut pos = 0usize;
+    value(b, &mut pos, 1).is_some() && pos == b.len()
+}
+
+fn version_valid(v: &str) -> bool {
+    // the property's range: 1.14 ..= 1.20
+    match v.split_once('.') {
+        Some((a, b)) => a == "1" && b.parse::<u64>().map(|m| (14..=20).contains(&m)).unwrap_or(false),
+        None => false,
+    }
+}
+
+fn version_epoch(v: &str) -> u8 {
+    if v == "1.20" { 2 } else { 1 }
+}
+
+/// `codec convgen <outdir> <n>`: n inputs (valid serializations in epoch 2, epoch 1 and mixed,
+/// mutations of them, random strings), a few (from, to) pairs each, through both convert APIs.
+fn cmd_convgen(outdir: &str, n: u64) {
+    let seed = env_u64("VERIF_SEED", 1);
+    let rng = RefCell::new(Rng::new(seed));
+    let mut cases = std::io::BufWriter::new(std::fs::File::create(format!("{outdir}/cases.txt")).unwrap());
+    let mut imp = std::io::BufWriter::new(std::fs::File::create(format!("{outdir}/impl.txt")).unwrap());
+    let mut mon = std::io::BufWriter::new(std::fs::File::create(format!("{outdir}/monitor.txt")).unwrap());
+    let mut stream: BTreeMap<&'static str, u64> = BTreeMap::new();
+    let mut classes: BTreeMap<String, u64> = BTreeMap::new();
+    let mut pairs: BTreeMap<String, u64> = BTreeMap::new();
+    let mut distinct = std::collections::HashSet::new();
+    let mut nontrivial = 0u64;
+    let mut conversions = 0u64;
+    let mut samples: Vec<String> = Vec::new();
+    let mut prev: Vec<u8> = vec![0];
+    let core: Vec<String> = std::iter::once("none".to_string()).chain((13..=21).map(|m| format!("1.{m}"))).collect();
+    let exotic = ["0.14", "0.20", "2.0", "2.14", "1.0", "1.4294967295", "4294967295.20", "0.0", "2.20", "1.140"];
+
+    for i in 0..n {
+        verif_harness::valuegen::set_budget(if rng.borrow_mut().chance(1, 100) { 30_000 } else { 200 });
+        let which = rng.borrow_mut().below(10);
+        let bytes: Vec<u8> = if which < 9 {
+            let v = {
+                let mut r = rng.borrow_mut();
+                if r.chance(1, 2) {
+                    let d = r.range(1, 5) as u32;
+                    gen_tree(&mut r, d)
+                } else {
+                    let d = r.range(1, 34) as u32;
+                    gen_chain(&mut r, d)
+                }
+            };
+            let enc = rng.borrow_mut().below(4);
+            let (name, sv) = match enc {
+                0 => ("valid_e2", SerializedValue::serialize(&v)),
+                1 => ("valid_e1", SerializedValue::serialize_as::<tags::Value>(Legacy(&v))),
+                _ => ("valid_mixed", SerializedValue::serialize_as::<tags::Value>(Mixed(&v, &rng))),
+            };
+            let mut b = match sv {
+                Ok(sv) => sv.to_vec(),
+                Err(_) => vec![0],
+            };
+            if which < 6 {
+                *stream.entry(name).or_default() += 1;
+            } else {
+                let mut r = rng.borrow_mut();
+                if r.chance(1, 6) {
+                    // nest the value below 1..40 `Some`s: crosses the depth limit
+                    *stream.entry("nested_deeper").or_default() += 1;
+                    let k = r.range(1, 40) as usize;
+                    b.splice(0..0, std::iter::repeat(1u8).take(k));
+                } else {
+                    *stream.entry("mutated").or_default() += 1;
+                    mutate(&mut r, &mut b, &prev);
+                }
+            }
+            b
+        } else {
+            *stream.entry("random").or_default() += 1;
+            let mut r = rng.borrow_mut();
+            let len = r.range(1, 24) as usize;
+            (0..len)
+                .map(|_| if r.chance(1, 2) { r.below(66) as u8 } else { r.next() as u8 })
+                .collect()
+        };
+        if bytes.is_empty() {
+            continue;
+        }
+        if bytes.len() < 4096 {
+            prev = bytes.clone();
+        }
+        let h = hex(&bytes);
+        if i < 4 {
+            samples.push(if h.len() > 200 { format!("{}…", &h[..200]) } else { h.clone() });
+        }
+        let dec_in = run_op("dec", &[&h]);
+        let skip_in = run_op("skip", &[&h]);
+
+        // (from, to) pairs: one real downgrade, two from {none, 1.13..1.21}^2, sometimes an exotic one
+        let mut todo: Vec<(String, String)> = Vec::new();
+        {
+            let mut r = rng.borrow_mut();
+            let f = if r.chance(1, 2) { "none".to_string() } else { "1.20".to_string() };
+            todo.push((f, format!("1.{}", r.range(14, 19))));
+            for _ in 0..2 {
+                let f = r.pick(&core).clone();
+                let t = r.pick(&core[1..]).clone();
+                todo.push((f, t));
+            }
+            if r.chance(1, 4) {
+                let f = if r.chance(1, 2) { r.pick(&exotic).to_string() } else { r.pick(&core).clone() };
+                let t = if r.chance(1, 2) { r.pick(&exotic).to_string() } else { r.pick(&core[1..]).clone() };
+                todo.push((f, t));
+            }
+        }
+        for (f, t) in todo {
+            conversions += 1;
+            let res = run_op("conv", &[&f, &t, &h]);
+            writeln!(cases, "conv {} {} {}", f, t, h).unwrap();
+            writeln!(imp, "{}", res).unwrap();
+            *pairs.entry(format!("{}->{}", if f == "none" { "none" } else if version_valid(&f) { if version_epoch(&f) == 2 { "v2" } else { "v1" } } else { "bad" },
+                if version_valid(&t) { if version_epoch(&t) == 2 { "v2" } else { "v1" } } else { "bad" })).or_default() += 1;
+
+            // ---- monitor on the implementation alone (the property statement) ----
+            let mut fail = |what: &str, extra: &str| {
+                writeln!(mon, "C13 {} bytes={} from={} to={} conv={} dec={} {}", what, h, f, t,
+                    &res[..res.len().min(200)], &dec_in[..dec_in.len().min(120)], extra).unwrap();
+            };
+            if res.starts_with("!PANIC") {
+                fail("panic in convert", "");
+                *classes.entry("panic".into()).or_default() += 1;
+                continue;
+            }
+            if res.starts_with("!APIS") {
+                fail("slice API and in-place API disagree", "");
+                continue;
+            }
+            let f_eff = if f == "none" { "1.20" } else { f.as_str() };
+            let versions_ok = version_valid(f_eff) && version_valid(&t);
+            if !versions_ok {
+                *classes.entry("!InvalidVersion".into()).or_default() += 1;
+                if res != "!InvalidVersion" {
+                    fail("version outside 1.14..1.20 is not rejected with InvalidVersion", "");
+                }
+                continue;
+            }
+            if res == "!InvalidVersion" {
+                fail("version inside 1.14..1.20 rejected with InvalidVersion", "");
+                continue;
+            }
+            if version_epoch(&t) >= version_epoch(f_eff) {
+                *classes.entry("same-or-newer:identity".into()).or_default() += 1;
+                if res != h {
+                    fail("conversion to the same or a newer epoch is not the identity", "");
+                }
+                continue;
+            }
+            // a real downgrade (1.20 -> 1.14..1.19)
+            if res.starts_with('!') {
+                *classes.entry(format!("down:{}", res)).or_default() += 1;
+                if !dec_in.starts_with('!') {
+                    fail("conversion fails on a well-formed value", "");
+                }
+                if skip_in.parse::<usize>().ok() == Some(bytes.len()) {
+                    fail("conversion fails on input that is well-formed up to UTF-8 (skip accepts all of it)", &format!("skip={}", skip_in));
+                }
+                continue;
+            }
+            let changed = res != h;
+            *classes.entry(if changed { "down:Ok-changed".into() } else { "down:Ok-already-v1".into() }).or_default() += 1;
+            if changed && distinct.insert(h.clone()) {
+                nontrivial += 1;
+            }
+            // decodes to the same value (validating decoder: same value or, for non-UTF-8 strings,
+            // the same rejection)
+            let dec_out = run_op("dec", &[&res]);
+            if dec_in.starts_with('!') && dec_in != "!Invalid" {
+                fail("conversion succeeds on input the decoder rejects for a reason other than UTF-8", "");
+            }
+            if dec_out != dec_in {
+                fail("converted value decodes differently", &format!("dec_out={}", &dec_out[..dec_out.len().min(120)]));
+            }
+            // none of the 1.20 container encodings
+            let v1 = run_op("v1only", &[&res]);
+            writeln!(cases, "v1only {}", res).unwrap();
+            writeln!(imp, "{}", v1).unwrap();
+            if v1 != "1" {
+                fail("converted value contains a 1.20 container encoding (or is no pre-1.20 value)", "");
+            }
+            let skip_out = run_op("skip", &[&res]);
+            if skip_out.parse::<usize>().ok() != Some(res.len() / 2) {
+                fail("converted value is not skippable as a whole", &format!("skip_out={}", skip_out));
+            }
+            // converting twice equals converting once
+            let again = run_op("conv", &["none", "1.19", &res]);
+            if again != res {
+                fail("converting twice differs from converting once", &format!("again={}", &again[..again.len().min(200)]));
+            }
+        }
+    }
+
+    let mut stats = String::new();
+    write!(stats, "{{\"seed\":{},\"inputs\":{},\"conversions\":{},\"distinct_nontrivial\":{},", seed, n, conversions, nontrivial).unwrap();
+    write!(stats, "\"streams\":{{{}}},", stream.iter().map(|(k, v)| format!("\"{}\":{}", k, v)).collect::<Vec<_>>().join(",")).unwrap();
+    write!(stats, "\"version_pairs\":{{{}}},", pairs.iter().map(|(k, v)| format!("\"{}\":{}", k, v)).collect::<Vec<_>>().join(",")).unwrap();
+    write!(stats, "\"result_classes\":{{{}}},", classes.iter().map(|(k, v)| format!("\"{}\":{}", k, v)).collect::<Vec<_>>().join(",")).unwrap();
+    write!(stats, "\"samples\":[{}]}}", samples.iter().map(|s| format!("\"{}\"", s)).collect::<Vec<_>>().join(",")).unwrap();
+    std::fs::write(format!("{outdir}/stats.json"), stats).unwrap();
+}
+
 fn main() {
     quiet_panics();
     let args: Vec<String> = std::env::args().collect();
@@ -457,6 +883,7 @@ fn main() {
         Some("gen") => cmd_gen(&args[2], args[3].parse().unwrap()),
         Some("run") => cmd_run(&args[2], &args[3]),
         Some("mut") => cmd_mut(&args[2], args[3].parse().unwrap()),
+        Some("convgen") => cmd_convgen(&args[2], args[3].parse().unwrap()),
         _ => {
             eprintln!("usage: codec gen <outdir> <n> | codec run <cases> <out>");
             std::process::exit(2);
